@@ -72,6 +72,7 @@ func main() {
 	maxDiv := flag.Int("maxdiv", 200, "stop after this many divergences")
 	engine := flag.String("engine", "", "engine: '', f32, f64")
 	cfgName := flag.String("cfgname", "default", "configuration label")
+	calc := flag.Bool("calc", false, "cross-check the shape-only calculators (C13)")
 	verbose := flag.Bool("v", false, "print divergences")
 	flag.Parse()
 
@@ -143,7 +144,7 @@ func main() {
 				continue
 			}
 			for _, p := range pall {
-				cfg := world.Config{D: d, Pal: p, Engine: *engine, Name: *cfgName}
+				cfg := world.Config{D: d, Pal: p, Engine: *engine, Name: *cfgName, Calc: *calc}
 				dv, oc := world.Run(&c, cfg, stats)
 				if oc == world.Passed && len(c.Steps) > 1 {
 					stats.Nontrivial++
